@@ -58,8 +58,16 @@ const maxEnum = 48 // reads enumerated per case (more are counted as truncated)
 var faultKinds = []string{"500", "404", "timeout"}
 
 type faultPlan struct {
-	K    int
-	Kind string
+	K      int
+	Kind   string
+	Sticky string `json:",omitempty"` // "" one-shot at read K | all-reads | node-lookups : every matching read fails from K on
+}
+
+// caseOf maps a case index to (reaper, variant): every block of four consecutive cases holds the four reapers,
+// rotated so that a child process (which gets every n-th case) sees all of them.
+func caseOf(idx int) (string, int) {
+	block, pos := idx/len(reapers), idx%len(reapers)
+	return reapers[(pos+block/len(reapers))%len(reapers)], block
 }
 
 func isGuardRead(verb, _, _ string) bool {
@@ -90,10 +98,30 @@ type runResult struct {
 }
 
 func run(r *mon.Report, tier string, idx int, rng *rand.Rand) {
-	reaper := reapers[idx%len(reapers)]
-	S := draw(reaper, idx/len(reapers), rng)
+	reaper, n := caseOf(idx)
+	S := draw(reaper, n, rng)
 	seed := rng.Int63()
 	r.Inc("cases_" + reaper)
+	for _, off := range offsetsFor(S, n) {
+		S.OffsetMs = off
+		runAt(r, tier, idx, S, seed)
+	}
+}
+
+// offsetsFor: clock positions around the threshold at which the prepared state is decided. The cheap reapers
+// get all five positions per state, node repair (large pools) two per state, rotating.
+func offsetsFor(S Spec, n int) []int {
+	switch {
+	case S.Threshold == "none":
+		return []int{0}
+	case S.Reaper == "health":
+		return [][]int{{-1000, 1}, {0, -1}, {1000, -1}}[n%3]
+	}
+	return []int{-1000, -1, 0, 1, 1000}
+}
+
+// runAt executes one (state, clock position): fault-free, then one run per (read k, error kind), then persistent failures.
+func runAt(r *mon.Report, tier string, idx int, S Spec, seed int64) {
 	base := execute(r, S, seed, nil, idx)
 	if base == nil {
 		return
@@ -111,6 +139,20 @@ func run(r *mon.Report, tier string, idx int, rng *rand.Rand) {
 		}
 		for _, kind := range kinds {
 			execute(r, S, seed, &faultPlan{K: i, Kind: kind}, idx)
+		}
+	}
+	// persistent failures: every read fails (API server / provider outage); for GC also: only the Node lookups fail
+	stickies := []string{"all-reads"}
+	if S.Reaper == "gc" {
+		stickies = append(stickies, "node-lookups")
+	}
+	for si, st := range stickies {
+		kinds := []string{faultKinds[(si+idx)%len(faultKinds)]}
+		if tier == "thorough" {
+			kinds = faultKinds
+		}
+		for _, kind := range kinds {
+			execute(r, S, seed, &faultPlan{K: 1, Kind: kind, Sticky: st}, idx)
 		}
 	}
 	if r.WantSample() && len(base.Judged) > 0 && idx >= 4 {
@@ -143,7 +185,13 @@ func execute(r *mon.Report, S Spec, seed int64, plan *faultPlan, idx int) *runRe
 		return false
 	}}
 	if plan != nil {
-		f.AtCall, f.Kind = plan.K, plan.Kind
+		f.AtCall, f.Kind, f.Sticky = plan.K, plan.Kind, plan.Sticky != ""
+		if plan.Sticky == "node-lookups" {
+			count := f.Match
+			f.Match = func(verb, kind, caller string) bool {
+				return count(verb, kind, caller) && verb == "list" && kind == "Node" && strings.Contains(caller, "AllNodesForNodeClaim")
+			}
+		}
 	}
 	logStart := e.API.LogLen()
 	provStart := len(e.Provider.CallsCopy())
@@ -162,6 +210,9 @@ func execute(r *mon.Report, S Spec, seed int64, plan *faultPlan, idx int) *runRe
 		r.Inc("runs_with_fault_plan")
 		if f.Fired {
 			res.Fired = plan.Kind + "@" + w.firedAt(logStart, provStart)
+			if plan.Sticky != "" {
+				res.Fired = plan.Kind + "@sticky:" + plan.Sticky
+			}
 			r.Inc("faults_fired")
 			r.Inc("fault_" + res.Fired)
 		} else {
@@ -206,13 +257,15 @@ func account(r *mon.Report, w *W, res *runResult, plan *faultPlan, idx int) {
 		r.Inc("gc_runs_with_failed_node_lookup")
 	}
 	caseDesc := map[string]any{"case": idx, "spec": S, "fault": plan, "names": w.Names, "nodes": w.Nodes}
+	// most telling witnesses first: a delete whose trigger is false on the ground truth as well
+	sort.SliceStable(res.Judged, func(a, b int) bool { return groundFalse(res.Judged[a]) && !groundFalse(res.Judged[b]) })
 	for _, j := range res.Judged {
 		if j.Reaper == "other" {
 			r.Inc("deletes_by_other_karpenter_code")
 			continue
 		}
 		r.Inc(j.Reaper + "_deletes_judged")
-		r.Inc(j.Reaper + "_delete_justified_by_" + j.Why)
+		r.Inc(j.Reaper + "_delete_reason_" + j.Why)
 		if j.Reaper != reaper {
 			r.Inconcl("case %d: delete attributed to %s while %s was reconciling (%s)", idx, j.Reaper, reaper, j.Caller)
 		}
@@ -226,6 +279,12 @@ func account(r *mon.Report, w *W, res *runResult, plan *faultPlan, idx int) {
 		r.DistinctAdd("deleted_state_classes", j.Reaper+"|"+cls+"|"+j.Why)
 		if !j.OK {
 			what := fmt.Sprintf("%s deleted %s %s although its documented trigger did not hold: %s (clock %s, fault %s)", j.Reaper, j.Kind, j.Name, j.Why, offLabel(S), fault)
+			if j.Why == "node-lookup-error" {
+				r.Inc("gc_deleted_after_failed_node_lookup_ground_truth_" + fmt.Sprint(j.Facts["groundTruthTrigger"]))
+				what = fmt.Sprintf("garbage collection deleted NodeClaim %s in the reconcile in which the Node lookup guarding that deletion failed (%v); "+
+					"ground truth at that instant: instance listed=%v, nodes=%v, node Ready=%v (%v); fault %s",
+					j.Name, j.Facts["nodeLookupError"], j.Facts["instanceListed"], j.Facts["nodes"], j.Facts["nodeReady"], j.Facts["groundTruthTrigger"], fault)
+			}
 			r.Violate(j.Key, what, caseDesc, map[string]any{"judgment": j, "decisions": res.Outcomes, "call_order": res.Trace, "event_log": res.Log})
 		}
 	}
@@ -254,6 +313,16 @@ func account(r *mon.Report, w *W, res *runResult, plan *faultPlan, idx int) {
 			r.Inc(fmt.Sprintf("target_%s_%+dms_%s", S.Threshold, S.OffsetMs, map[bool]string{true: "deleted", false: "kept"}[o.Deleted]))
 		}
 	}
+}
+
+func groundFalse(j judgment) bool {
+	if j.OK {
+		return false
+	}
+	if g, ok := j.Facts["groundTruthTrigger"]; ok {
+		return g == "node-ready" || g == "instance-still-listed" || g == "unregistered"
+	}
+	return true
 }
 
 // class is the state class of one claim (what the signature distinguishes).
